@@ -14,7 +14,7 @@ import (
 // Generator: mostly-valid ICS-20 packets over generated registry states, plus targeted boundary streams
 // (receivers, amounts, returning native coins, malformed data, other channels).  One splitmix PRNG per case.
 
-var baseDenoms = []string{"uatom", "uosmo", "stake", "transfer/channel-3/uxyz", "gamm/pool/1", "ibc/27394FB092D2ECCD56123C74F36E4C1F926001CEADA9CA97EA622B25F41E5EB2"}
+var baseDenoms = []string{"uatom", "uosmo", "stake", "transfer/channel-3/uxyz", "gamm/pool/1", "uatom", "transfer/channel-12/transfer/channel-3/uabc"}
 
 func pow2(k uint) *big.Int { return new(big.Int).Lsh(big.NewInt(1), k) }
 
@@ -57,7 +57,7 @@ func genRegistry(r *hlib.Rand, s *Spec) {
 	s.PairDisabled = r.Chance(12, 100)
 	s.AggDisabled = r.Chance(8, 100)
 	s.SendDisabled = r.Chance(10, 100)
-	s.RecvDisabled = r.Chance(4, 100)
+	s.RecvDisabled = r.Chance(3, 100)
 	switch r.Intn(4) {
 	case 0:
 		s.PreVoucher = "0"
@@ -230,7 +230,8 @@ func genSpec(r *hlib.Rand, id int) Spec {
 		case 0:
 			s.Sender, s.Tag = []string{"", "  "}[r.Intn(2)], "sender-blank"
 		case 1:
-			s.Denom, s.Tag = []string{"", "a", "u", "1abc", "a b", "ibc/xyz", "ibc/", "transfer//x"}[r.Intn(8)], "denom-invalid"
+			s.Denom, s.Tag = []string{"", "a", "u", "1abc", "a b", "ibc/xyz", "ibc/", "transfer//x",
+				"ibc/27394FB092D2ECCD56123C74F36E4C1F926001CEADA9CA97EA622B25F41E5EB2"}[r.Intn(9)], "denom-invalid"
 		case 2:
 			s.DstChan, s.Tag = "channel-1", "other-dest-channel"
 		case 3:
